@@ -69,7 +69,7 @@ def _typestate(sg, start, acq_pred, rel_pred):
     return out
 
 
-def r14_1(ctx, rc):
+def r14_1(ctx, rc, only=None):
     R = ctx.R
     G = guards(ctx)
     stop = set(G.all) | {G.replay}
@@ -78,6 +78,8 @@ def r14_1(ctx, rc):
     sites = 0
     for F in ctx.prog.funcs.values():
         if F.cls != R.builder:
+            continue
+        if only is not None and F.name not in only:
             continue
         if not any(isinstance(g, Func) and g.qualname == RESERVE
                    for c in ctx.prog.calls_in(F)
@@ -128,7 +130,7 @@ def r14_1(ctx, rc):
                             'returns normally from %s' % F.qualname)
                 rc.violation('R14.1 | ' + what[0], what[1], a.where(),
                              sg.describe_path(path), key=key)
-    if sites < 2:
+    if sites < (2 if only is None else 1):
         raise AnalysisError('only %d reservation sites found' % sites)
 
 
@@ -340,6 +342,14 @@ def r14_5(ctx, rc):
     r8_5(ctx, rc)
 
 
+def r14_6(ctx, rc):
+    """A reused record is registered only after the fallible step that
+    re-creates and reserves its directories (R1.5 order): a failure there
+    must not leave the record claimed."""
+    from .c01 import r1_5
+    r1_5(ctx, rc)
+
+
 RULES = [
     ('R14.1', 'reserve/release typestate on every exit', r14_1),
     ('R14.2', 'cache write: in rollback scope, backed up, compensated',
@@ -347,4 +357,5 @@ RULES = [
     ('R14.3', 'partial acquisition of directories is handed off', r14_3),
     ('R14.4', 'a file moved aside is always registered', r14_4),
     ('R14.5', 'a setup failure is recorded as such', r14_5),
+    ('R14.6', 'reuse registers only after the fallible apply step', r14_6),
 ]
